@@ -31,3 +31,52 @@ func UnwrapPtr(x any) any {
 	}
 	return refVal.Interface()
 }
+
+// DeepCopy returns a copy of v that shares no slice, map or pointer memory with v
+// (unexported struct fields are copied as they are).
+func DeepCopy(v reflect.Value) reflect.Value {
+	switch v.Kind() {
+	case reflect.Slice:
+		if v.IsNil() {
+			return v
+		}
+		cp := reflect.MakeSlice(v.Type(), v.Len(), v.Len())
+		for i := 0; i < v.Len(); i++ {
+			cp.Index(i).Set(DeepCopy(v.Index(i)))
+		}
+		return cp
+	case reflect.Pointer:
+		if v.IsNil() {
+			return v
+		}
+		cp := reflect.New(v.Type().Elem())
+		cp.Elem().Set(DeepCopy(v.Elem()))
+		return cp
+	case reflect.Map:
+		if v.IsNil() {
+			return v
+		}
+		cp := reflect.MakeMapWithSize(v.Type(), v.Len())
+		for it := v.MapRange(); it.Next(); {
+			cp.SetMapIndex(it.Key(), DeepCopy(it.Value()))
+		}
+		return cp
+	case reflect.Interface:
+		if v.IsNil() {
+			return v
+		}
+		cp := reflect.New(v.Type()).Elem()
+		cp.Set(DeepCopy(v.Elem()))
+		return cp
+	case reflect.Struct:
+		cp := reflect.New(v.Type()).Elem()
+		cp.Set(v)
+		for i := 0; i < cp.NumField(); i++ {
+			if cp.Field(i).CanSet() {
+				cp.Field(i).Set(DeepCopy(v.Field(i)))
+			}
+		}
+		return cp
+	}
+	return v
+}
